@@ -21,6 +21,7 @@ type yamlStyle struct {
 	flow   int  // 0 block, 1 flow everywhere, 2 mixed
 	quote  int  // 0 library default, 1 double-quote all strings, 2 mixed
 	factor bool // introduce anchors / aliases / merges
+	plainKeys bool // write some numeric / boolean looking keys as plain scalars in non-canonical spellings
 }
 
 func (st *yamlStyle) strNode(s string) *yaml.Node {
@@ -34,6 +35,20 @@ func (st *yamlStyle) strNode(s string) *yaml.Node {
 	return n
 }
 
+// keyNode: a mapping key. The keys "12" and "true" are sometimes written as PLAIN scalars in a non-canonical spelling
+// (0xc, 0o14, +12; True): YAML reads those as the integer 12 / the boolean true, whose key form is "12" / "true".
+func (st *yamlStyle) keyNode(k string) *yaml.Node {
+	if st.plainKeys && st.rng.Intn(2) == 0 {
+		switch k {
+		case "12":
+			return &yaml.Node{Kind: yaml.ScalarNode, Tag: "!!int", Value: []string{"0xc", "0o14", "+12", "1_2", "12"}[st.rng.Intn(5)]}
+		case "true":
+			return &yaml.Node{Kind: yaml.ScalarNode, Tag: "!!bool", Value: []string{"True", "TRUE", "true"}[st.rng.Intn(3)]}
+		}
+	}
+	return st.strNode(k)
+}
+
 func (st *yamlStyle) node(d any) *yaml.Node {
 	switch x := d.(type) {
 	case orderedJSON:
@@ -42,7 +57,7 @@ func (st *yamlStyle) node(d any) *yaml.Node {
 			n.Style = yaml.FlowStyle
 		}
 		for _, p := range x {
-			n.Content = append(n.Content, st.strNode(p[0].(string)), st.node(p[1]))
+			n.Content = append(n.Content, st.keyNode(p[0].(string)), st.node(p[1]))
 		}
 		return n
 	case []any:
@@ -237,6 +252,27 @@ func avFromYAML(text []byte) (any, error) {
 	return avFromNode(&n, 0)
 }
 
+// avKeyText: the harness's own reading of what a mapping key denotes: a string key as written, an integer key in
+// decimal, a boolean key as true / false (other kinds: the raw text).
+func avKeyText(key *yaml.Node) string {
+	if key.Kind == yaml.ScalarNode && key.Tag != "!!str" && key.Tag != "" {
+		var kx any
+		if key.Decode(&kx) == nil {
+			switch t := kx.(type) {
+			case int:
+				return strconv.Itoa(t)
+			case int64:
+				return strconv.FormatInt(t, 10)
+			case uint64:
+				return strconv.FormatUint(t, 10)
+			case bool:
+				return strconv.FormatBool(t)
+			}
+		}
+	}
+	return key.Value
+}
+
 func avFromNode(n *yaml.Node, depth int) (any, error) {
 	if depth > 200 {
 		return nil, fmt.Errorf("too deep")
@@ -269,7 +305,7 @@ func avFromNode(n *yaml.Node, depth int) (any, error) {
 				for k.Kind == yaml.AliasNode {
 					k = k.Alias
 				}
-				explicit[k.Value] = true
+				explicit[avKeyText(k)] = true
 			}
 		}
 		have := map[string]bool{}
@@ -305,6 +341,7 @@ func avFromNode(n *yaml.Node, depth int) (any, error) {
 			for key.Kind == yaml.AliasNode {
 				key = key.Alias
 			}
+			keyText := avKeyText(key)
 			if key.Kind != yaml.ScalarNode || (key.Tag != "!!str" && key.Tag != "") {
 				avExotic = true // non-string keys are canonicalised by the decoder (0x1f -> "31"): not "as written"
 			}
@@ -312,7 +349,7 @@ func avFromNode(n *yaml.Node, depth int) (any, error) {
 			if err != nil {
 				return nil, err
 			}
-			kv = append(kv, []any{key.Value, vv})
+			kv = append(kv, []any{keyText, vv})
 		}
 		return obj{"t": "m", "kv": kv}, nil
 	case yaml.ScalarNode:
